@@ -1441,6 +1441,180 @@ fn big_history<S: BigSub>(hint: usize, n: u32, order: u32, keep_pct: u32, acc: &
     }
 }
 
+/// bigtree "tall": one monotone fill of n keys (millions: a root-to-leaf path of 2*log2(n) - 2 links, all turning
+/// the same way on the fill side), checked against a closed-form reference (no model map): every lookup, every
+/// predecessor handle in both forms, the complete neighbour walk in both directions, structure and slot accounting,
+/// then clear (every slot back on the free list), emptiness and reuse, then a short fill in the opposite direction.
+/// Lean on purpose - a few seconds per history - so that the tallest trees are part of the quick tier.
+fn big_tall_history<S: BigSub>(n: u32, desc: bool, acc: &mut Acc, case_no: u64) {
+    let case = vec![
+        format!("{}::new(8)", S::NAME),
+        format!("insert keys 2k, k = 0..{n}, in {} order; check every key; clear; check; insert 1000 keys in the opposite order; check", if desc { "descending" } else { "ascending" }),
+        format!("--only-tall {n},{}", desc as u8),
+    ];
+    rt::hist_reset();
+    rt::hist_push(code(6, case_no, 1, 0, 0));
+    let val = |k: u32| k.wrapping_mul(7) + 3;
+    let beat = || {
+        let cur = rt::my_history();
+        rt::hist_reset();
+        if let Some(c) = cur.first() {
+            rt::hist_push(*c);
+        }
+    };
+    let r = guard(|| -> Result<(), (String, String)> {
+        let mut t = S::new(8);
+        let check = |t: &S, n: u32, what: &str| -> Result<(), (String, String)> {
+            beat();
+            if on("is_empty") && t.empty() != (n == 0) {
+                return Err(("is_empty".into(), format!("{what}: is_empty() = {} with {n} keys stored", t.empty())));
+            }
+            let (g_get, g_handle) = (on("get_value"), on("handle"));
+            if g_get || g_handle {
+                for k in 0..n {
+                    let key = 2 * k;
+                    if g_get {
+                        let g = t.get(key);
+                        if g != Some(val(key)) {
+                            return Err(("get_value".into(), format!("{what}: get_value({key}) = {g:?}, reference says Some({})", val(key))));
+                        }
+                        if k % 16 == 3 && t.get(key + 1).is_some() {
+                            return Err(("get_value".into(), format!("{what}: get_value({}) of an absent key returned a value", key + 1)));
+                        }
+                    }
+                    if g_handle {
+                        let h = t.fil(key);
+                        if h == i_tree::EMPTY_REF || t.at(h) != val(key) {
+                            return Err(("handle".into(), format!("{what}: first_index_less({key}) = {h} does not designate the entry of key {key}")));
+                        }
+                        if k % 4 == 1 {
+                            let (h1, h2, h3) = (t.filby(key), t.fil(key + 1), t.filby(key + 1));
+                            if h1 != h || h2 != h || h3 != h {
+                                return Err(("handle".into(), format!("{what}: first_index_less({key}) = {h}, first_index_less_by({key}) = {h1}, first_index_less({}) = {h2}, first_index_less_by({}) = {h3}: all four must designate the entry of key {key}", key + 1, key + 1)));
+                            }
+                        }
+                    }
+                    if k & 0xfffff == 0 {
+                        beat();
+                    }
+                }
+            }
+            if n > 0 && t.after(t.fil(0)).is_some() {
+                if on("index_after") {
+                    let mut h = t.fil(0);
+                    for k in 0..n {
+                        if h == i_tree::EMPTY_REF || t.at(h) != val(2 * k) {
+                            return Err(("index_after".into(), format!("{what}: the walk by index_after from the smallest key does not arrive at key {}", 2 * k)));
+                        }
+                        h = t.after(h).unwrap();
+                    }
+                    if h != i_tree::EMPTY_REF {
+                        return Err(("index_after".into(), format!("{what}: index_after(handle of the largest key) = {h}, not EMPTY_REF")));
+                    }
+                }
+                beat();
+                if on("index_before") {
+                    let mut h = t.fil(2 * (n - 1));
+                    for k in (0..n).rev() {
+                        if h == i_tree::EMPTY_REF || t.at(h) != val(2 * k) {
+                            return Err(("index_before".into(), format!("{what}: the walk by index_before from the largest key does not arrive at key {}", 2 * k)));
+                        }
+                        h = t.before(h).unwrap();
+                    }
+                    if h != i_tree::EMPTY_REF {
+                        return Err(("index_before".into(), format!("{what}: index_before(handle of the smallest key) = {h}, not EMPTY_REF")));
+                    }
+                }
+            }
+            beat();
+            if on("structure") || on("arena") || on("growth") {
+                let s = t.snap();
+                let a = crate::inv::analyze(&s, |p| p.0);
+                if on("structure") {
+                    if let Some(e) = a.rb_errors.first() {
+                        return Err(("structure".into(), format!("{what}: {e}")));
+                    }
+                    if a.inorder.len() != n as usize {
+                        return Err(("structure".into(), format!("{what}: {} entries linked, {n} stored", a.inorder.len())));
+                    }
+                }
+                if on("arena") {
+                    if let Some(e) = a.arena_errors.first() {
+                        return Err(("arena".into(), format!("{what}: {e}")));
+                    }
+                    if a.inorder.len() + s.unused.len() + 1 != s.slots.len() {
+                        return Err(("arena".into(), format!("{what}: {} linked + {} free + sentinel != {} slots", a.inorder.len(), s.unused.len(), s.slots.len())));
+                    }
+                }
+                beat();
+            }
+            Ok(())
+        };
+        // handles taken at 1/2 and 3/4 of the fill must still designate their entries at the end (C17)
+        let mut held: Vec<(u32, u32)> = vec![];
+        for j in 0..n {
+            let k = if desc { n - 1 - j } else { j };
+            t.ins(2 * k, val(2 * k));
+            if j & 0xfffff == 0 {
+                beat();
+            }
+            if on("handle-stability") && (j == n / 2 || j == n / 4 * 3) {
+                for i in (0..=j).step_by((j as usize / 4096).max(1)) {
+                    let key = 2 * if desc { n - 1 - i } else { i };
+                    held.push((key, t.fil(key)));
+                }
+            }
+        }
+        for &(key, h) in &held {
+            if h == i_tree::EMPTY_REF || t.at(h) != val(key) || t.fil(key) != h {
+                return Err(("handle-stability".into(), format!("handle {h} taken for key {key} during the fill no longer designates its entry after the remaining insertions (reads {}, first_index_less({key}) = {})", if h == i_tree::EMPTY_REF { 0 } else { t.at(h) }, t.fil(key))));
+            }
+        }
+        check(&t, n, "after the fill")?;
+        let slots_before = if on("arena") || on("growth") { t.snap().slots.len() } else { 0 };
+        t.clr();
+        scope_after_clear();
+        check(&t, 0, "after clear")?;
+        if on("clear") || on("arena") {
+            let s = t.snap();
+            if s.unused.len() + 1 != s.slots.len() || (slots_before != 0 && s.slots.len() != slots_before) {
+                return Err(("arena".into(), format!("after clear of {n} entries: {} of {} slots on the free list (arena had {slots_before} slots)", s.unused.len(), s.slots.len())));
+            }
+        }
+        if on("get_value") {
+            for k in (0..n).step_by(4099) {
+                if t.get(2 * k).is_some() {
+                    return Err(("get_value".into(), format!("after clear: get_value({}) still returns a value", 2 * k)));
+                }
+            }
+        }
+        for j in 0..1000u32 {
+            let k = if desc { j } else { 999 - j };
+            t.ins(2 * k, val(2 * k));
+        }
+        check(&t, 1000, "after clear and 1000 insertions")?;
+        if on("growth") {
+            let s = t.snap();
+            if s.slots.len() != slots_before {
+                return Err(("growth".into(), format!("after clear and 1000 insertions the arena has {} slots, it had {slots_before} before", s.slots.len())));
+            }
+        }
+        Ok(())
+    });
+    acc.transitions += n as u64 + 1001;
+    acc.evals += 3 * n as u64;
+    acc.nontrivial += 1;
+    acc.states.insert(fingerprint(format!("tall:{}:{n}:{desc}", S::NAME).as_bytes()));
+    match r {
+        Ok(Ok(())) => {}
+        Ok(Err((tag, msg))) => acc.viol("history", &tag, msg, case.clone()),
+        Err(_) => acc.viol("history", "panic", format!("the subject panicked: {}", rt::last_panic()), case.clone()),
+    }
+    if acc.samples.is_empty() {
+        acc.samples.push(case);
+    }
+}
+
 /// bigtree "spine": a long monotone fill of widely spaced keys, then a second monotone fill in the opposite direction
 /// into the gap right next to the root's key - the subtree beside the root gets a spine of 2*log2(n2) links, all turning
 /// the same way.  Then the root is removed through its handle (a two-children removal whose successor / predecessor
@@ -1574,6 +1748,36 @@ fn sweep_bigtree(a: &Args) -> ! {
                 }
             }
         }
+    }
+    if let Some(tl) = a.get("tall").or(a.get("only-tall")) {
+        // tall family: "n,n,..." each ascending and descending (or one case "n,desc" with --only-tall); --sys both = map and set
+        let both = a.get("sys") == Some("both");
+        let kinds: Vec<bool> = if both { vec![false, true] } else { vec![set] };
+        let mut tc: Vec<(u32, bool, bool)> = vec![];
+        for &is_set in &kinds {
+            if a.get("only-tall").is_some() {
+                let (x, y) = tl.split_once(',').unwrap();
+                tc.push((x.parse().unwrap(), y == "1", is_set));
+            } else {
+                for part in tl.split(',') {
+                    for desc in [false, true] {
+                        tc.push((part.parse().unwrap(), desc, is_set));
+                    }
+                }
+            }
+        }
+        let tcs = &tc;
+        let acc = parallel(tc.len(), a.num("threads", 16) as usize, prop, if both { "MapTree<u32,u32> + SetTree<u32,u32>" } else { sys }, |i, acc| {
+            let (n, desc, is_set) = tcs[i];
+            if is_set {
+                big_tall_history::<i_tree::set::tree::SetTree<u32, u32>>(n, desc, acc, i as u64);
+            } else {
+                big_tall_history::<i_tree::map::tree::MapTree<u32, u32>>(n, desc, acc, i as u64);
+            }
+        });
+        let mut acc = acc;
+        acc.count("histories", tc.len() as u64);
+        finish(acc.report(t0, a.get("only-tall").is_none(), ""), a)
     }
     if let Some(sp) = a.get("spine") {
         // spine family: "n1:n2,n1:n2,..." each in both directions
